@@ -191,6 +191,24 @@ func (lv *LeafVariants) GetHighestPrecedence(onlyNewOrUpdated bool, includeDefau
 		return nil
 	}
 
+	// the caller asks for the value that is going to rule, regardless of it being changed or not.
+	// Entries that are about to be deleted do not take part in that.
+	if !onlyNewOrUpdated {
+		var remaining *LeafEntry
+		for _, e := range lv.les {
+			if e.GetDeleteFlag() {
+				continue
+			}
+			if remaining == nil || e.Priority() < remaining.Priority() {
+				remaining = e
+			}
+		}
+		if remaining == nil || checkNotDefaultAllowedButIsDefaultOwner(remaining, includeDefaults) {
+			return nil
+		}
+		return remaining
+	}
+
 	var highest *LeafEntry
 	var secondHighest *LeafEntry
 	for _, e := range lv.les {
